@@ -59,9 +59,10 @@ inductive SendObs where
   | bad                                          -- handle does not exist (harness bug)
 deriving Repr, DecidableEq
 
-/-- `SendControler::avaliable` with its unchecked subtraction made explicit. -/
-def SendCtl.avaliable (s : SendCtl) : Option Nat :=
-  if s.sent ≤ s.max then some (s.max - s.sent) else none
+/-- `SendControler::avaliable` = `max_data.saturating_sub(sent_data)` (fix-C11-avaliable-saturating; before
+that fix the subtraction was unchecked: panic / wrap-around when `sent_data > max_data`, which a rejected
+0-RTT produces).  `Nat` subtraction saturates like `saturating_sub`. -/
+def SendCtl.avaliable (s : SendCtl) : Nat := s.max - s.sent
 
 /-- `SendControler::increase_limit`. -/
 def SendCtl.increaseLimit (s : SendCtl) (m : Nat) : SendCtl :=
@@ -72,21 +73,18 @@ def SendCtl.step (s : SendCtl) (op : SendOp) : SendCtl × SendObs :=
   match op with
   | .credit q =>
     if s.dead then (s, .err) else
-    match s.avaliable with
-    | none => ({ s with poisoned := true }, .panic "avaliable")
-    | some av =>
-      let a := min av q
-      -- commit(a)
-      let sent' := s.sent + a
-      -- `avaliable()` again: cannot underflow now (a ≤ max - sent)
-      if s.max - sent' = 0 ∧ s.limited = false then
-        if s.max > VARINT_MAX then
-          ({ s with sent := sent', limited := true, poisoned := true }, .panic "varint")
-        else
-          ({ s with sent := sent', limited := true, credits := s.credits ++ [a],
-                    blocked := s.blocked ++ [s.max] }, .credit a (some s.max))
+    let a := min s.avaliable q
+    -- commit(a)
+    let sent' := s.sent + a
+    -- `avaliable()` again (saturating: 0 also when `sent_data > max_data`)
+    if s.max - sent' = 0 ∧ s.limited = false then
+      if s.max > VARINT_MAX then
+        ({ s with sent := sent', limited := true, poisoned := true }, .panic "varint")
       else
-        ({ s with sent := sent', credits := s.credits ++ [a] }, .credit a none)
+        ({ s with sent := sent', limited := true, credits := s.credits ++ [a],
+                  blocked := s.blocked ++ [s.max] }, .credit a (some s.max))
+    else
+      ({ s with sent := sent', credits := s.credits ++ [a] }, .credit a none)
   | .post k n =>
     match s.credits[k]? with
     | none => (s, .bad)
@@ -101,10 +99,7 @@ def SendCtl.step (s : SendCtl) (op : SendOp) : SendCtl × SendObs :=
       if s.dead then ({ s with credits := cs }, .done) else
       -- return_back(a)
       if a > s.sent then ({ s with credits := cs, poisoned := true }, .panic "return_back")
-      else
-        let sent' := s.sent - a
-        if sent' ≤ s.max then ({ s with credits := cs, sent := sent' }, .done)
-        else ({ s with credits := cs, sent := sent', poisoned := true }, .panic "avaliable")
+      else ({ s with credits := cs, sent := s.sent - a }, .done)   -- `avaliable() > 0` only decides a wake-up
   | .maxdata m =>
     if s.dead then (s, .done) else (s.increaseLimit m, .done)
   | .revise rej m =>
